@@ -7,6 +7,7 @@ import (
 	"io/fs"
 	realos "os"
 	"strconv"
+	"strings"
 	"time"
 
 	"github.com/josephburnett/jd/v2/verif/simos"
@@ -151,13 +152,22 @@ func Readlink(name string) (string, error) {
 
 var tempSeq int
 
-// CreateTemp creates a new file with a deterministic name.
+// CreateTemp creates a new file with a deterministic name: like the real one
+// it replaces the last "*" of the pattern (or appends) by a unique string.
 func CreateTemp(dir, pattern string) (*File, error) {
 	tempSeq++
 	if dir == "" {
 		dir = "."
 	}
-	name := pattern + strconv.Itoa(tempSeq)
+	uniq := "t" + strconv.Itoa(tempSeq)
+	name := pattern + uniq
+	if i := strings.LastIndexByte(pattern, '*'); i >= 0 {
+		name = pattern[:i] + uniq + pattern[i+1:]
+	}
+	dir = strings.TrimRight(dir, "/")
+	if dir == "" {
+		dir = "/"
+	}
 	if dir != "." {
 		name = dir + "/" + name
 	}
